@@ -627,6 +627,17 @@ func (in *Interp) pathLabel() string {
 	return strings.Join(parts, " ")
 }
 
+// LogSolverTo records this interpreter's whole solver session (commands and
+// answers) in a file.
+func (in *Interp) LogSolverTo(path string) error {
+	f, err := os.Create(path)
+	if err != nil {
+		return err
+	}
+	in.sv.log = f
+	return nil
+}
+
 func (in *Interp) Close() {
 	if in.sv != nil {
 		in.sv.Close()
